@@ -161,6 +161,10 @@ cdef class LegacyRecordBatch:
         buf = <char*> self._buffer.buf
         while pos < buffer_len:
             length = <Py_ssize_t> hton.unpack_int32(&buf[pos + LENGTH_OFFSET])
+            if length < RECORD_OVERHEAD_V0_DEF:
+                raise CorruptRecordException(
+                    "Record size is less than the minimum record overhead "
+                    "({})".format(RECORD_OVERHEAD_V0_DEF))
             pos += LOG_OVERHEAD + length
         if pos > buffer_len:
             raise CorruptRecordException("Corrupted compressed message")
